@@ -7,6 +7,7 @@ import (
 	"fmt"
 	"go/types"
 	"os"
+	"os/exec"
 	"path/filepath"
 	"sort"
 	"strconv"
@@ -456,8 +457,12 @@ func runCheck(repo, prop, tier string) int {
 	ev.WallS = time.Since(t0).Seconds()
 	b, _ := json.MarshalIndent(ev, "", " ")
 	os.WriteFile(evPath, b, 0o644)
+	nKnown := len(knownHit)
+	if kh, ok := ev.Coverage["known_findings_hit"].([]string); ok {
+		nKnown = len(kh)
+	}
 	fmt.Printf("%s: %d obligations, %d discharged, %d covers sat/%d, %d violations, %d known findings, %.1fs\n",
-		prop, nObl, nDis, nCoverSat, nCover, len(violations), len(knownHit), time.Since(t0).Seconds())
+		prop, nObl, nDis, nCoverSat, nCover, len(violations), nKnown, time.Since(t0).Seconds())
 	if len(harness) > 0 || vacuous || (nObl == 0 && ev.Coverage["bounded_parts"] == nil) {
 		if nObl == 0 {
 			fmt.Println("HARNESS-ERROR: zero obligations generated")
@@ -474,8 +479,115 @@ func runCheck(repo, prop, tier string) int {
 }
 
 // boundedParts runs the bounded stand-ins registered for a property (none yet).
+// boundedParts runs the bounded stand-in of a property whose deciding step is
+// outside contract reach (the language of the regexp engine): the REAL
+// functions are executed on every pattern / string of a small alphabet up to
+// a stated length.  Labelled bounded; never counted among the proved obligations.
 func boundedParts(w *World, prop, tier string, seed int, ev *Evidence, known []knownFinding) []string {
-	return nil
+	if prop != "C03" && prop != "C05" {
+		return nil
+	}
+	plen, ulen := 4, 5
+	if tier == "thorough" {
+		plen, ulen = 5, 6
+	}
+	dir, _ := os.MkdirTemp("", "govc-bnd-")
+	defer os.RemoveAll(dir)
+	ov := filepath.Join(dir, "ov.json")
+	src := filepath.Join(verifDir(), "bounded", "zz_verif_bounded_test.go")
+	os.WriteFile(ov, []byte(fmt.Sprintf(`{"Replace":{%q:%q}}`, filepath.Join(w.repo, "rules", "zz_verif_bounded_test.go"), src)), 0o644)
+	cmd := exec.Command("go", "test", "-overlay", ov, "-vet=off", "-count=1", "-timeout", "3000s", "-run", "^TestZZVerifBounded$", "-v", "./rules")
+	cmd.Dir = w.repo
+	cmd.Env = append(os.Environ(), "GOFLAGS=-mod=mod", "GOPROXY=off", "GOSUMDB=off", "GOTOOLCHAIN=local",
+		"VERIF_BOUND_PROP="+prop, fmt.Sprintf("VERIF_BOUND_PLEN=%d", plen), fmt.Sprintf("VERIF_BOUND_ULEN=%d", ulen))
+	out, err := cmd.CombinedOutput()
+	var viols []string
+	kinds := map[string]int{}
+	samples := map[string][]string{}
+	evals, nontriv, summary := 0, 0, false
+	for _, ln := range strings.Split(string(out), "\n") {
+		switch {
+		case strings.HasPrefix(ln, "BOUNDED-KIND "):
+			var k string
+			var n int
+			for _, f := range strings.Fields(ln) {
+				if strings.HasPrefix(f, "kind=") {
+					k = f[5:]
+				}
+				if strings.HasPrefix(f, "count=") {
+					fmt.Sscanf(f[6:], "%d", &n)
+				}
+			}
+			kinds[k] = n
+		case strings.HasPrefix(ln, "BOUNDED-VIOLATION "):
+			for _, f := range strings.Fields(ln) {
+				if strings.HasPrefix(f, "kind=") {
+					samples[f[5:]] = append(samples[f[5:]], ln)
+				}
+			}
+		case strings.HasPrefix(ln, "BOUNDED "):
+			summary = true
+			for _, f := range strings.Fields(ln) {
+				if strings.HasPrefix(f, "evaluations=") {
+					fmt.Sscanf(f[12:], "%d", &evals)
+				}
+				if strings.HasPrefix(f, "nontrivial_patterns=") {
+					fmt.Sscanf(f[20:], "%d", &nontriv)
+				}
+			}
+		}
+	}
+	if !summary {
+		fmt.Printf("HARNESS-ERROR: bounded stand-in for %s did not complete: %v\n%s\n", prop, err, trunc(string(out), 2000))
+		return []string{"bounded/" + prop + "/harness"}
+	}
+	var knownHit []string
+	for _, k := range sortedKeys(kinds) {
+		name := "bounded/" + prop + "/" + k
+		isKnown := false
+		for _, kf := range known {
+			if kf.Prop == prop && kf.Obl == name {
+				isKnown = true
+				knownHit = append(knownHit, name)
+				fmt.Printf("KNOWN-FINDING: property=%s %s\n", prop, strings.TrimSpace(strings.TrimPrefix(strings.TrimSpace(strings.TrimPrefix(kf.Text, "finding:")), "property="+prop)))
+			}
+		}
+		if isKnown {
+			continue
+		}
+		rdir := filepath.Join(verifDir(), "replays", prop)
+		os.MkdirAll(rdir, 0o755)
+		path := filepath.Join(rdir, sanitize(name)+".json")
+		b, _ := json.MarshalIndent(map[string]any{"property": prop, "obligation": name, "kind": "bounded", "failing_inputs": samples[k], "count": kinds[k],
+			"how_to_rerun": fmt.Sprintf("VERIF_BOUND_PROP=%s VERIF_BOUND_PLEN=%d VERIF_BOUND_ULEN=%d go test -overlay <ov mapping rules/zz_verif_bounded_test.go to /verif/bounded/zz_verif_bounded_test.go> -vet=off -run ^TestZZVerifBounded$ -v ./rules", prop, plen, ulen)}, "", " ")
+		os.WriteFile(path, b, 0o644)
+		fmt.Printf("  bounded check %s: %d failing inputs, e.g. %s\n", name, kinds[k], strings.Join(samples[k], " ; "))
+		fmt.Printf("VIOLATION property=%s replay=%s\n", prop, path)
+		viols = append(viols, name)
+	}
+	ev.Level = "exploration"
+	ev.Coverage["bounded_parts"] = []string{fmt.Sprintf("bounded (NOT a proof): every basic pattern over the alphabet {a b . * ^ | /} up to length %d%s against every string over {a B . / :} up to length %d (patterns starting with || against 5 scheme/subdomain prefixes + every tail up to length %d), real NewNetworkRule / matchPattern / regexp engine", plen, map[bool]string{true: " and every regular-expression rule /re/ over {a b | . \\ d *} up to that length", false: ""}[prop == "C05"], ulen, ulen-2)}
+	ev.Coverage["evaluations"] = evals
+	ev.Coverage["distinct_nontrivial"] = nontriv
+	ev.Coverage["rule"] = "exhaustive enumeration of patterns and strings up to the stated lengths; a pattern counts as non-trivial when the compiled matcher accepts some but not all of the strings tried (counted by the harness)"
+	var ss []any
+	for _, k := range sortedKeys(samples) {
+		for _, x := range samples[k] {
+			ss = append(ss, x)
+		}
+	}
+	if len(ss) == 0 {
+		ss = append(ss, fmt.Sprintf("pattern %q against %q ... (%d evaluations, no disagreement)", "||a^", "http://b.a/", evals))
+	}
+	ev.Coverage["samples"] = ss
+	ev.Coverage["exhaustive"] = true
+	if len(knownHit) > 0 {
+		if old, ok := ev.Coverage["known_findings_hit"].([]string); ok {
+			knownHit = append(old, knownHit...)
+		}
+		ev.Coverage["known_findings_hit"] = knownHit
+	}
+	return viols
 }
 
 func sanitize(s string) string {
